@@ -17,6 +17,7 @@ import logging
 import math
 import os
 import types
+import warnings
 from fractions import Fraction
 
 import c05_translate
@@ -33,7 +34,7 @@ RULE = ('string frames from one PRNG: 2..8 columns, 30..400 rows, label at a ran
         'unicode / with blanks. Every frame is run through the real mixed_rank_graph for every documented non-surrogate heuristic '
         'and the seven names of the property, in target-only or pairwise mode (both covered per frame), cap 1024 (sometimes small), '
         'sampling ratio 1.0 (sometimes < 1 for the numba family: correspondence only). Plus one dispatch probe per heuristic name '
-        '(real conduct_feature_ranking on int8 category codes, scorer spied). Non-trivial = evaluated pair with both columns '
+        '(real conduct_feature_ranking on int8 category codes, scorer spied). Plus DIRECT calls of conduct_feature_ranking on int64 / int32 / int16 vectors whose codes are not 0..k-1 (sparse ids, offsets, -1/+1, gaps) for MI, AMI, the numba family and Pearson, judged against the library function of that name / the densely recoded pair. Non-trivial = evaluated pair with both columns '
         'non-constant under a non-Constant heuristic; distinct = distinct (heuristic, joint partition structure of the oriented pair).')
 ASSUMPTIONS = [
     'sklearn.mutual_info_classif(discrete_features=True) is GIVEN the semantics plug-in MI (compared numerically, tolerance 4e-6*(1+ln n))',
@@ -680,6 +681,74 @@ def shrink(ctx: Ctx):
             f.case, f.desc = hit[0].case, hit[0].desc
 
 
+def gen_direct(rng):
+    """two integer vectors as a library caller may hold them: codes that are not 0..k-1 (sparse ids, offsets, -1/+1 labels),
+    numpy's default int64 or narrow dtypes"""
+    n = rng.choice([4, 9, 30, 120, 400])
+    ka, kb = rng.choice([2, 3, 5, 9]), rng.choice([2, 2, 3, 4])
+    A = [rng.randrange(ka) for _ in range(n)]
+    B = [(a + rng.randrange(2)) % kb if rng.random() < 0.7 else rng.randrange(kb) for a in A]
+    style = rng.choice(['dense', 'sparse', 'offset', 'plusminus', 'gappy'])
+    if style == 'sparse':
+        ma, mb = rng.sample(range(0, 30000), ka), rng.sample(range(0, 30000), kb)
+    elif style == 'offset':
+        ma, mb = [100 + i for i in range(ka)], [7 + i for i in range(kb)]
+    elif style == 'plusminus':
+        ma, mb = list(range(ka)), ([-1, 1] + list(range(2, kb)))[:kb]
+    elif style == 'gappy':
+        ma, mb = [2 * i for i in range(ka)], [2 * i for i in range(kb)]
+    else:
+        ma, mb = list(range(ka)), list(range(kb))
+    h = rng.choice(['MI', 'MI', 'AMI', 'MI-numba', 'MI-numba-randomized', 'correlation-Pearson'])
+    if h.startswith('MI-numba'):
+        ma, mb = [abs(v) for v in ma], [abs(v) + (1 if style == 'plusminus' else 0) for v in mb]
+        mb = list(dict.fromkeys(mb)) + [max(mb) + 1 + i for i in range(kb)]
+    return {'kind': 'direct', 'A': [ma[a] for a in A], 'B': [mb[b] for b in B], 'heuristic': h, 'dtype': rng.choice(['int64', 'int64', 'int32', 'int16']),
+            'style': style}
+
+
+def evaluate_direct(ctx: Ctx, cases):
+    """conduct_feature_ranking called directly on integer vectors: the score is the selected heuristic applied to the two
+    vectors – the library function of that name on the same values (MI: sklearn's mutual_info_score, AMI, Pearson), and for the
+    partition-based heuristics it does not change when the codes are replaced by dense first-occurrence codes"""
+    import numpy as np
+    import outrank.algorithms.importance_estimator as ie
+    from sklearn.metrics import mutual_info_score
+    _quiet()
+    for c in cases:
+        A, B, h = c['A'], c['B'], c['heuristic']
+        a, b = np.asarray(A, dtype=c['dtype']), np.asarray(B, dtype=c['dtype'])
+        args = types.SimpleNamespace(heuristic=h, mi_stratified_sampling_ratio=1.0, reference_model_JSON='', label_column='label')
+        ctx.evaluations += 1
+        ctx.count('direct:' + h)
+        ctx.count('direct-codes:' + c['style'])
+        if len(set(A)) > 1 and len(set(B)) > 1:
+            ctx.nontrivial.add(('direct', h, _partition_key(A, B)))
+        show = f'conduct_feature_ranking({c["dtype"]} vector {A[:10]}…, {c["dtype"]} vector {B[:10]}…, heuristic={h!r}) on {len(A)} rows'
+        try:
+            with warnings.catch_warnings():
+                warnings.simplefilter('ignore')
+                got = float(ie.conduct_feature_ranking(a.reshape(-1, 1).copy() if h in ('MI',) or h.startswith('MI-numba') else a.copy(), b.copy(), args))
+        except Exception as e:   # noqa: BLE001
+            ctx.oracle_fail('direct-raises', f'{show} raised {type(e).__name__}: {str(e)[:160]}', c)
+            continue
+        da, db = {}, {}
+        A2, B2 = [da.setdefault(v, len(da)) for v in A], [db.setdefault(v, len(db)) for v in B]
+        if A != B and A2 == B2:                      # the recoding must not turn two different vectors into a self pair
+            B2 = [v + len(da) for v in B2]
+        if h == 'MI':
+            want, what = max(0.0, float(mutual_info_score(A, B))), "sklearn's mutual information of the two vectors"
+        elif h in ('AMI', 'correlation-Pearson'):
+            if h == 'correlation-Pearson' and (len(set(A)) < 2 or len(set(B)) < 2):
+                continue
+            want, what = _lib_score(h, A, B), 'the library score of that name on the same values'
+        else:
+            a2, b2 = np.asarray(A2, dtype=np.int32), np.asarray(B2, dtype=np.int32)
+            want, what = float(ie.conduct_feature_ranking(a2.reshape(-1, 1), b2, args)), 'the score of the same pair under dense first-occurrence codes'
+        if not _close(got, want, 1e-6 + 4e-6 * (1 + math.log(len(A)))):
+            ctx.oracle_fail('direct-score', f'{show} = {got!r}, but {what} is {want!r}', c)
+
+
 def corpus():
     lab = ['1', '0', '1', '1', '0', '0', '1', '0'] * 5
     x = ['u', 'v', 'u', 'u', 'v', 'v', 'u', 'u'] * 5
@@ -695,6 +764,7 @@ def run(ctx: Ctx):
     cases = probe_cases() + corpus() + [gen_case(ctx.rng, ctx.thorough()) for _ in range(nfr)]
     for i in range(0, len(cases), 100):
         evaluate(ctx, cases[i:i + 100])
+    evaluate_direct(ctx, [gen_direct(ctx.rng) for _ in range(3000 if ctx.thorough() else 400)])
     shrink(ctx)
 
 
@@ -704,9 +774,13 @@ def search(ctx: Ctx):
     cases = probe_cases() + [gen_case(sub.rng, False, max_rows=120) for _ in range(500)]
     for i in range(0, len(cases), 100):
         evaluate(sub, cases[i:i + 100], oracle_only=True)
+    evaluate_direct(sub, [gen_direct(sub.rng) for _ in range(1500)])
     shrink(sub)
     return sub.oracle_failures
 
 
 def replay(ctx: Ctx, payload):
-    evaluate(ctx, [payload['case']])
+    if payload['case'].get('kind') == 'direct':
+        evaluate_direct(ctx, [payload['case']])
+    else:
+        evaluate(ctx, [payload['case']])
